@@ -342,6 +342,7 @@ impl From<SupportedRegister> for Register {
     fn from(register: SupportedRegister) -> Self {
         match register {
             SupportedRegister::RIP => Register::RIP,
+            SupportedRegister::EIP => Register::EIP,
             SupportedRegister::RAX => Register::RAX,
             SupportedRegister::RBX => Register::RBX,
             SupportedRegister::RCX => Register::RCX,
@@ -426,7 +427,6 @@ impl From<SupportedRegister> for Register {
             SupportedRegister::XMM13 => Register::XMM13,
             SupportedRegister::XMM14 => Register::XMM14,
             SupportedRegister::XMM15 => Register::XMM15,
-            _ => panic!("Unsupported register"),
         }
     }
 }
@@ -547,7 +547,7 @@ impl Axecutor {
     pub fn reg_write_64(&mut self, reg: SupportedRegister, value: u64) -> Result<(), AxError> {
         let r: Register = reg.into();
         assert_fatal!(
-            r.is_gpr64() || r.is_ip(),
+            r.is_gpr64() || r == Register::RIP,
             "{:?} is not a valid 64-bit register",
             r
         );
@@ -629,7 +629,7 @@ impl Axecutor {
     pub fn reg_read_64(&self, reg: SupportedRegister) -> Result<u64, AxError> {
         let r: Register = reg.into();
         assert_fatal!(
-            r.is_gpr64() || r.is_ip(),
+            r.is_gpr64() || r == Register::RIP,
             "{:?} is not a valid 64-bit register",
             r
         );
